@@ -3179,6 +3179,55 @@ def c15_both_trees(env, ob):
     return merge(a, b)
 
 
+@obligation(id="C15.drop_without_a_target_touches_nothing", funcs="DdlExecutor::execute (DropTable arm)",
+            bounds="every path of DdlExecutor::execute for a DROP TABLE statement; callees uninterpreted",
+            native="c15_drop_if_exists_of_a_missing_table")
+def c15_drop_without_target(env, ob):
+    """The binder resolves the table name to an object id; for a missing table (allowed through by IF EXISTS) there is none.
+    Such a statement must not reach the drop machinery at all: an instruction built from it would carry a made-up id -
+    object 0 is the first table ever created - and 'never disturb other tables' is gone."""
+    variants = env.enum_variants("sql/binder/bounds.rs", "BoundStatement")
+    ti = env.struct_fields("sql/binder/bounds.rs", "BoundDropTable").index("table_id")
+    holder = {}
+
+    def mkargs(ctx, f):
+        a = [ctx.sym(n, t) for n, t in f.params]
+        st = a[1].cell.val
+        st.disc = Leaf(bvconst(variants["DropTable"], 64), "isize")
+        holder["stmt"] = st
+        return a
+    ctx, f, args, res = explore(env, "runtime/ddl.rs", "execute", sig=r"&mut DdlExecutor, _2: &bounds::BoundStatement", args=mkargs,
+                                enums={"BoundStatement": variants}, loop_bound=1)
+    drop = holder["stmt"].variant_cell("DropTable").val.field_cell("0", "sql::binder::bounds::BoundDropTable").val
+    tid = drop.field_cell(str(ti), "std::option::Option<u64>").val
+    if not isinstance(tid, Agg):
+        return result(ob, "inconclusive", reason="table_id of BoundDropTable is not an Option in the dump")
+    none = f"(= {tid.get_disc().term} {bvconst(0, 64)})"
+    qs, reach, noop = [], 0, 0
+    for path, rv in res:
+        if path.panics:
+            continue
+        acts = idx(path, r"(execute_drop_table|DropTableInstr as From<.*>>::from|Catalog::remove_relation|log_drop)$")
+        if acts:
+            reach += 1
+            qs.append(conj(path.events[acts[0]].get("pc_prefix", path.pc) + [none]))
+        else:
+            noop += 1
+    kw = dict(paths=len(res), events={"paths_reaching_the_drop_machinery": reach, "paths_that_do_not": noop})
+    if not reach:
+        return result(ob, "inconclusive", reason="vacuity: no path of the DropTable arm reaches execute_drop_table", **kw)
+    chk = env.check(ctx, [disj(qs), none])
+    kw["queries"] = 2
+    if chk[1]["verdict"] != "sat":
+        return result(ob, "inconclusive", reason="vacuity: 'no target' is not satisfiable (" + chk[1]["verdict"] + ")", **kw)
+    if chk[0]["verdict"] == "sat":
+        return result(ob, "violated", failed=["drop_machinery_reached_without_a_target_table"],
+                      cex={"what": "DROP TABLE of a name the binder did not resolve reaches execute_drop_table", "model": chk[0].get("model")}, **kw)
+    if chk[0]["verdict"] != "unsat":
+        return result(ob, "inconclusive", reason="solver: " + chk[0]["verdict"], **kw)
+    return result(ob, "discharged", **kw)
+
+
 @obligation(id="C15.constraint_gets_its_index", also="C07", funcs="DdlExecutor::add_constraint",
             bounds="every path of DdlExecutor::add_constraint; callees uninterpreted", native="c15_constraint_after_name_reuse")
 def c15_constraint_index(env, ob):
